@@ -650,6 +650,35 @@ def _get_lambda_in_stream(
     return lda, saw_new_line
 
 
+def _lambda_at_code_position(
+    ast_source: Callable,
+    candidates: List[ast.Lambda],
+    positions: Dict[int, Tuple[int, int]],
+) -> Optional[ast.Lambda]:
+    """Pick, from several lambdas found in the source, the one whose body contains the code
+    of `ast_source`, using the source positions python (3.11+) keeps for each instruction.
+
+    Returns `None` if python does not tell us (then the caller has to decide some other way).
+    """
+    code = getattr(ast_source, "__code__", None)
+    if code is None or not hasattr(code, "co_positions"):
+        return None
+    body_positions = [
+        (line, col)
+        for line, _, col, end_col in code.co_positions()
+        if line is not None and col is not None and not (col == 0 and end_col == 0)
+    ]
+    if len(body_positions) == 0:
+        return None
+    body_start = min(body_positions)
+
+    # Our lambda is the last one that starts before the first bit of code in the body.
+    before_body = [lda for lda in candidates if positions[id(lda)] < body_start]
+    if len(before_body) == 0:
+        return None
+    return max(before_body, key=lambda lda: positions[id(lda)])
+
+
 def _parse_source_for_lambda(
     ast_source: Callable, caller_name: Optional[str] = None
 ) -> Optional[ast.Lambda]:
@@ -703,8 +732,10 @@ def _parse_source_for_lambda(
         saw_new_line = False
         # The line (in the file) the lambda we are after starts on, if python can tell us.
         code_first_line = getattr(getattr(ast_source, "__code__", None), "co_firstlineno", None)
+        lambda_positions: Dict[int, Tuple[int, int]] = {}
         while not saw_new_line:
             lambda_starts_on_line = lambda_line + start_token.start[0]
+            lambda_starts_at_col = start_token.start[1]
             lda, saw_new_line = _get_lambda_in_stream(t_stream, start_token)
             # A lambda that starts on another line can't be the one we were handed (we might
             # have backed up to an earlier line to find the start of the expression).
@@ -712,6 +743,7 @@ def _parse_source_for_lambda(
                 lambdas_on_a_line[func_name.string if func_name is not None else None].append(
                     lda
                 )
+                lambda_positions[id(lda)] = (lambda_starts_on_line, lambda_starts_at_col)
 
             if saw_new_line:
                 break
@@ -745,6 +777,21 @@ def _parse_source_for_lambda(
         good_lambdas = [
             lda for lda in lambdas_to_search if lambda_arg_list(lda) == caller_arg_list
         ]
+
+        # We think we know which one it is, but there are other lambdas with these arguments
+        # on the line that we did not look at because they do not directly follow the caller's
+        # name (e.g. `ds.Select((lambda e: e.a) if flag else (lambda e: e.b))`)? If python
+        # recorded where the code of our lambda is, make sure we have the right one.
+        all_matching = [
+            lda
+            for lambda_list in lambdas_on_a_line.values()
+            for lda in lambda_list
+            if lambda_arg_list(lda) == caller_arg_list
+        ]
+        if len(good_lambdas) == 1 and len(all_matching) > 1:
+            by_position = _lambda_at_code_position(ast_source, all_matching, lambda_positions)
+            if by_position is not None:
+                good_lambdas = [by_position]
         if len(good_lambdas) == 0:
             raise ValueError(
                 f"Internal Error - Found no lambda in source with the arguments {caller_arg_list}"
